@@ -84,6 +84,7 @@ type c15Case struct {
 	bufs  *c15Bufs
 	outer *c15Case
 	step  string
+	mem   *c15Mem
 }
 
 // c15V records a refuted case; for a step of a history the whole history is
@@ -164,11 +165,16 @@ type c15Bufs struct {
 	n          int
 	gx, gy, gw *c15Guard
 	fills      int // steps that reached the library
+	// the slices of basis functions of the history's steps: a step that uses
+	// the basis of an earlier call hands the library the very same slice
+	terms map[string]*c15Terms
+	mem   *c15Mem // the results of all earlier calls of the history
 }
 
 func c15NewBufs(n int) *c15Bufs {
 	z := make([]float64, n)
-	return &c15Bufs{n: n, gx: c15NewGuard("xs", z, false), gy: c15NewGuard("ys", z, false), gw: c15NewGuard("weights", z, false)}
+	return &c15Bufs{n: n, gx: c15NewGuard("xs", z, false), gy: c15NewGuard("ys", z, false), gw: c15NewGuard("weights", z, false),
+		terms: map[string]*c15Terms{}, mem: &c15Mem{}}
 }
 
 // c15Guards returns the guarded arguments of a case: fresh arrays, or for a
@@ -218,6 +224,85 @@ func c15CheckGuards(w *mon.W, c c15Case, after string, gs ...*c15Guard) bool {
 }
 
 // ---------------------------------------------------------------------------
+// Returned slices belong to the caller: every result is checked for memory
+// shared with the results of earlier calls that the caller still holds, and
+// is then overwritten (including its spare capacity, which an append would
+// use) before the next call, as a caller does who post-processes its
+// coefficients in place. Later fits must not notice.
+
+type c15Mem struct {
+	held      []c15HeldResult
+	scribbled bool
+}
+
+type c15HeldResult struct {
+	who string
+	s   []float64
+}
+
+func c15Overlap(a, b []float64) bool {
+	a, b = a[:cap(a)], b[:cap(b)]
+	if len(a) == 0 || len(b) == 0 {
+		return false
+	}
+	for i := range a {
+		if &a[i] == &b[0] {
+			return true
+		}
+	}
+	for j := range b {
+		if &b[j] == &a[0] {
+			return true
+		}
+	}
+	return false
+}
+
+// take registers a result and returns a private copy of it (what the oracles
+// judge). Every held result is kept alive, so equal addresses mean shared
+// memory and not a reused allocation. ok is false when the result shares
+// memory with an earlier one. zero: the data of this fit are identically zero.
+func (m *c15Mem) take(w *mon.W, c c15Case, who string, s []float64, zero bool) (cp []float64, ok bool) {
+	cp = append([]float64(nil), s...)
+	ok = true
+	if len(m.held) > 0 {
+		w.Hit("result-checked-for-memory-shared-with-earlier-result")
+	}
+	w.HitIf(m.scribbled, "fit-after-earlier-result-overwritten")
+	w.HitIf(m.scribbled && zero, "zero-ys-fit-after-earlier-result-overwritten")
+	for _, h := range m.held {
+		if c15Overlap(h.s, s) {
+			c15V(w, "result-shares-memory", fmt.Sprintf("the slice returned by %s shares its backing array with the slice returned by an earlier call (%s), which the caller still holds and may have modified; it now reads %v (%s)", who, h.who, s, c15Brief(c)), c)
+			ok = false
+			break
+		}
+	}
+	if len(m.held) >= 64 {
+		m.held = m.held[1:]
+	}
+	m.held = append(m.held, c15HeldResult{who, s})
+	return cp, ok
+}
+
+// scribble overwrites every held result and its spare capacity.
+func (m *c15Mem) scribble() {
+	for _, h := range m.held {
+		s := h.s[:cap(h.s)]
+		for i := range s {
+			s[i] = -7.25e33 - float64(i)*1e30
+		}
+		m.scribbled = m.scribbled || len(s) > 0
+	}
+}
+
+func c15MemOf(c c15Case) *c15Mem {
+	if c.bufs != nil && c.bufs.mem != nil {
+		return c.bufs.mem
+	}
+	return &c15Mem{}
+}
+
+// ---------------------------------------------------------------------------
 // M-step: counting basis functions.
 
 type c15Sentinel struct{ msg string }
@@ -228,7 +313,12 @@ type c15Terms struct {
 	calls    []int
 	budget   int
 	lenBad   bool
+	lenMsg   string
 	constIdx int // position of the constant function 1, -1 when the basis has none
+	// style decides which of the term functions are written the way an
+	// ordinary caller writes them (see lib)
+	style uint64
+	fs    []func(xs, out []float64) // the slice handed to the library (built once by lib)
 }
 
 // permute reorders the basis: new term k is old term perm[k]. It reports
@@ -355,33 +445,110 @@ func (t *c15Terms) values(xs []float64) [][]float64 {
 
 // lib returns the vectorised term functions for the library. Each counts its
 // invocations and panics with the sentinel once the budget is exceeded.
-func (t *c15Terms) lib(n int) []func(xs, out []float64) {
+//
+// The documentation of LinearLeastSquares says that a term "will be passed a
+// slice of x values in xs and must fill the slice termOut with the value of
+// the term for each value in xs": one cell of termOut per x, so the two have
+// the same length (a term may be called on parts of xs, as long as termOut is
+// the matching part). Half of the terms are written the way the library's own
+// constant term is, "for i := range termOut { termOut[i] = phi(xs[i]) }" (a
+// longer termOut makes them panic like any caller's term would), the others
+// range over xs; every mismatch of the lengths is recorded.
+//
+// The slice is built once per c15Terms: consecutive calls of a case (and of a
+// history) hand the library the SAME slice, as a caller does who fits several
+// data sets with one basis (basis...). begin must precede every library call.
+func (t *c15Terms) lib() []func(xs, out []float64) {
+	if t.fs != nil {
+		return t.fs
+	}
+	fs := make([]func(xs, out []float64), len(t.fns))
+	for j := range t.fns {
+		j := j
+		f := t.fns[j]
+		enter := func(xs, out []float64) {
+			t.calls[j]++
+			if t.calls[j] > t.budget {
+				panic(c15Sentinel{fmt.Sprintf("basis function %s called more than %d times", t.names[j], t.budget)})
+			}
+			if len(xs) != len(out) && !t.lenBad {
+				t.lenBad = true
+				t.lenMsg = fmt.Sprintf("basis function %s was called with len(xs)=%d and len(termOut)=%d", t.names[j], len(xs), len(out))
+			}
+		}
+		if (uint64(j)+t.style)%2 == 0 {
+			fs[j] = func(xs, termOut []float64) {
+				enter(xs, termOut)
+				for i := range termOut {
+					termOut[i] = f(xs[i])
+				}
+			}
+		} else {
+			fs[j] = func(xs, termOut []float64) {
+				enter(xs, termOut)
+				for i, x := range xs {
+					termOut[i] = f(x)
+				}
+			}
+		}
+	}
+	t.fs = fs
+	return fs
+}
+
+// begin resets the counters before a library call on n points.
+func (t *c15Terms) begin(n int) {
 	// a direct implementation calls every term once; one that works in
 	// chunks, or re-evaluates a term for every other term, could call it
 	// n*p times; anything beyond 1000+16np is a loop that does not make
 	// progress (a non-terminating one exceeds any such bound at once)
 	t.budget = 1000 + 16*n*len(t.fns)
-	fs := make([]func(xs, out []float64), len(t.fns))
-	for j := range t.fns {
-		j := j
-		fs[j] = func(xs, out []float64) {
-			t.calls[j]++
-			if t.calls[j] > t.budget {
-				panic(c15Sentinel{fmt.Sprintf("basis function %s called more than %d times", t.names[j], t.budget)})
+	for j := range t.calls {
+		t.calls[j] = 0
+	}
+}
+
+// probe checks that the slice handed to the library still holds the caller's
+// functions: element j, called on xs, must invoke term j exactly once and no
+// other term, and must produce phi_j(xs[i]) bit for bit. It returns a
+// description of the first difference.
+func (t *c15Terms) probe(xs []float64) string {
+	if t.fs == nil {
+		return ""
+	}
+	if len(t.fs) != len(t.fns) {
+		return fmt.Sprintf("the slice of basis functions has %d elements, %d were handed over", len(t.fs), len(t.fns))
+	}
+	lenBad, lenMsg := t.lenBad, t.lenMsg
+	defer func() { t.lenBad, t.lenMsg = lenBad, lenMsg }()
+	for j, f := range t.fs {
+		if f == nil {
+			return fmt.Sprintf("element %d (%s) of the slice of basis functions is nil after the call", j, t.names[j])
+		}
+		t.begin(len(xs))
+		out := make([]float64, len(xs))
+		for i := range out {
+			out[i] = math.NaN()
+		}
+		if p, e := mon.Call(func() { f(xs, out) }); p {
+			return fmt.Sprintf("element %d (%s) of the slice of basis functions panics when the caller evaluates it after the call: %v", j, t.names[j], e)
+		}
+		for k, n := range t.calls {
+			want := 0
+			if k == j {
+				want = 1
 			}
-			m := len(out)
-			if len(xs) != len(out) {
-				t.lenBad = true
-				if len(xs) < m {
-					m = len(xs)
-				}
+			if n != want {
+				return fmt.Sprintf("element %d of the slice of basis functions is no longer the function that was handed over: evaluating it called basis function %s %d times (expected %d)", j, t.names[k], n, want)
 			}
-			for i := 0; i < m; i++ {
-				out[i] = t.fns[j](xs[i])
+		}
+		for i, x := range xs {
+			if want := t.fns[j](x); math.Float64bits(out[i]) != math.Float64bits(want) {
+				return fmt.Sprintf("element %d of the slice of basis functions is no longer the function that was handed over: at x=%.17g it gives %.17g, %s(x)=%.17g", j, x, out[i], t.names[j], want)
 			}
 		}
 	}
-	return fs
+	return ""
 }
 
 // ---------------------------------------------------------------------------
@@ -654,6 +821,7 @@ func c15JudgeLLS(w *mon.W, c c15Case) {
 	if c.TermPerm != nil && !t.permute(c.TermPerm) {
 		return
 	}
+	t.style = c.Seed >> 7
 	phi := t.values(xs)
 	m := ref.NewLSQ(ref.BigRows(phi), ys, ws)
 	if !c15WellPosed(w, m) {
@@ -672,44 +840,92 @@ func c15JudgeLLS(w *mon.W, c c15Case) {
 	w.HitIf(c15AllZero(ys), "lls-ys-all-zero")
 	c15ScaleClasses(w, c, ys, ws)
 
-	gx, gy, gw := c15Guards(c, xs, ys, ws)
-	var params []float64
-	w.Eval("LinearLeastSquares")
-	if p, e := mon.Call(func() { params = fit.LinearLeastSquares(gx.Slice(), gy.Slice(), gw.Slice(), t.lib(len(xs))...) }); p {
-		if s, isS := e.(c15Sentinel); isS {
-			c15V(w, "step-budget", fmt.Sprintf("LinearLeastSquares: %s (%s)", s.msg, c15Brief(c)), c)
+	// the slice of basis functions: one per case, or, in a history, the one an
+	// earlier call with the same basis handed over
+	if b := c.bufs; b != nil {
+		key := fmt.Sprintf("%s/%d/%v", c.Basis, c.Degree, c.TermPerm)
+		if old := b.terms[key]; old != nil {
+			t = old
+			w.Hit("history-terms-slice-reused")
+			w.HitIf(ws != nil, "history-terms-slice-reused-weighted")
 		} else {
-			c15V(w, "panic", fmt.Sprintf("LinearLeastSquares panicked: %v (%s)", e, c15Brief(c)), c)
+			b.terms[key] = t
 		}
+	}
+	natural := false
+	for j := range t.fns {
+		natural = natural || (uint64(j)+t.style)%2 == 0
+	}
+	w.HitIf(natural, "lls-term-ranges-over-termOut")
+	w.HitIf(natural && len(xs)%4 != 0, "lls-term-ranges-over-termOut(n%4!=0)")
+	fs := t.lib()
+	mem := c15MemOf(c)
+	zero := c15AllZero(ys)
+
+	gx, gy, gw := c15Guards(c, xs, ys, ws)
+	// one library call with the case's slice of basis functions
+	fitOnce := func(gw *c15Guard, how string) (out []float64, ok bool) {
+		t.begin(len(xs))
+		t.lenBad, t.lenMsg = false, ""
+		w.Eval("LinearLeastSquares")
+		if p, e := mon.Call(func() { out = fit.LinearLeastSquares(gx.Slice(), gy.Slice(), gw.Slice(), fs...) }); p {
+			if s, isS := e.(c15Sentinel); isS {
+				c15V(w, "step-budget", fmt.Sprintf("LinearLeastSquares%s: %s (%s)", how, s.msg, c15Brief(c)), c)
+			} else if t.lenBad {
+				c15V(w, "term-length", fmt.Sprintf("LinearLeastSquares%s: %s; the term, written as \"for i := range termOut { termOut[i] = phi(xs[i]) }\", panicked: %v (%s)", how, t.lenMsg, e, c15Brief(c)), c)
+			} else {
+				c15V(w, "panic", fmt.Sprintf("LinearLeastSquares%s panicked: %v (%s)", how, e, c15Brief(c)), c)
+			}
+			return nil, false
+		}
+		if t.lenBad {
+			c15V(w, "term-length", fmt.Sprintf("LinearLeastSquares%s: %s: a term must be handed one cell of termOut for each value in xs (%s)", how, t.lenMsg, c15Brief(c)), c)
+			return nil, false
+		}
+		return out, true
+	}
+	// the slice of basis functions is the caller's: it must come back holding
+	// the functions that were handed over
+	probeTerms := func(how string) bool {
+		w.Hit("lls-terms-slice-probed-after-call")
+		if msg := t.probe(xs); msg != "" {
+			c15V(w, "terms-modified", fmt.Sprintf("LinearLeastSquares%s modified the caller's slice of basis functions: %s (%s)", how, msg, c15Brief(c)), c)
+			return false
+		}
+		return true
+	}
+	ret, ok := fitOnce(gw, "")
+	if !ok {
 		return
 	}
 	c15CheckGuards(w, c, "LinearLeastSquares", gx, gy, gw)
-	for j, n := range t.calls {
+	for _, n := range t.calls {
 		if n == 0 {
 			w.Note("basis-function-never-called")
 		}
-		_ = j
 	}
-	if t.lenBad {
-		w.Note("term-called-with-len(xs)!=len(termOut)")
+	calls := append([]int(nil), t.calls...)
+	params, fresh := mem.take(w, c, "LinearLeastSquares", ret, zero)
+	mem.scribble()
+	if !fresh {
+		return
 	}
 	if c15JudgeParams(w, c, m, params, "LinearLeastSquares") {
-		c15WeightScaleLaw(w, c, m, "LinearLeastSquares", params, func(gw2 *c15Guard) (out []float64, ok bool) {
-			w.Eval("LinearLeastSquares")
-			if p, e := mon.Call(func() { out = fit.LinearLeastSquares(gx.Slice(), gy.Slice(), gw2.Slice(), t.lib(len(xs))...) }); p {
-				if s, isS := e.(c15Sentinel); isS {
-					c15V(w, "step-budget", fmt.Sprintf("LinearLeastSquares: %s (%s)", s.msg, c15Brief(c)), c)
-				} else {
-					c15V(w, "panic", fmt.Sprintf("LinearLeastSquares (weights rescaled) panicked: %v (%s)", e, c15Brief(c)), c)
-				}
+		c15WeightScaleLaw(w, c, m, "LinearLeastSquares", params, func(gw2 *c15Guard) ([]float64, bool) {
+			w.Hit("lls-terms-slice-reused")
+			ret2, ok := fitOnce(gw2, " (second call with the same slice of basis functions, weights rescaled)")
+			if !ok {
 				return nil, false
 			}
-			return out, true
+			out, fresh := mem.take(w, c, "LinearLeastSquares (weights rescaled)", ret2, zero)
+			mem.scribble()
+			return out, fresh
 		})
 		c15CheckGuards(w, c, "LinearLeastSquares", gx, gy)
 	}
+	probeTerms("")
 	if w.WantSample() {
-		w.Sample(map[string]any{"op": "LinearLeastSquares", "basis": c.Basis, "terms": t.names, "n": len(xs), "p": m.P, "weights": ws != nil, "cond": m.Cond, "params": params, "term_calls": t.calls})
+		w.Sample(map[string]any{"op": "LinearLeastSquares", "basis": c.Basis, "terms": t.names, "n": len(xs), "p": m.P, "weights": ws != nil, "cond": m.Cond, "params": params, "term_calls": calls})
 	}
 }
 
@@ -745,10 +961,15 @@ func c15JudgePoly(w *mon.W, c c15Case) {
 		return
 	}
 	c15CheckGuards(w, c, "PolynomialRegression", gx, gy, gw)
-	coef := append([]float64(nil), res.Coefficients...)
-	if !c15JudgeParams(w, c, m, coef, "PolynomialRegression") {
+	mem := c15MemOf(c)
+	zero := c15AllZero(ys)
+	// (F reads Coefficients: they are overwritten once F has been judged)
+	coef, fresh := mem.take(w, c, "PolynomialRegression (Coefficients)", res.Coefficients, zero)
+	if !fresh || !c15JudgeParams(w, c, m, coef, "PolynomialRegression") {
+		mem.scribble()
 		return
 	}
+	defer mem.scribble()
 	if res.F == nil {
 		c15V(w, "F-nil", "PolynomialRegression returned a nil F ("+c15Brief(c)+")", c)
 		return
@@ -820,19 +1041,50 @@ func c15JudgePoly(w *mon.W, c c15Case) {
 		}
 	}
 
-	// agreement with LinearLeastSquares on the monomial basis
+	// agreement with LinearLeastSquares on the monomial basis (the caller has
+	// meanwhile post-processed its Coefficients in place)
+	mem.scribble()
 	t := c15Basis("mono", d)
-	var params []float64
+	t.style = c.Seed >> 7
+	if b := c.bufs; b != nil {
+		key := fmt.Sprintf("mono/%d/[]", d)
+		if old := b.terms[key]; old != nil {
+			t = old
+			w.Hit("history-terms-slice-reused")
+			w.HitIf(ws != nil, "history-terms-slice-reused-weighted")
+		} else {
+			b.terms[key] = t
+		}
+	}
+	fs := t.lib()
+	t.begin(len(xs))
+	t.lenBad, t.lenMsg = false, ""
+	var ret []float64
 	w.Eval("LinearLeastSquares(monomials)")
-	if p, e := mon.Call(func() { params = fit.LinearLeastSquares(gx.Slice(), gy.Slice(), gw.Slice(), t.lib(len(xs))...) }); p {
+	if p, e := mon.Call(func() { ret = fit.LinearLeastSquares(gx.Slice(), gy.Slice(), gw.Slice(), fs...) }); p {
 		if s, isS := e.(c15Sentinel); isS {
 			c15V(w, "step-budget", fmt.Sprintf("LinearLeastSquares: %s (%s)", s.msg, c15Brief(c)), c)
+		} else if t.lenBad {
+			c15V(w, "term-length", fmt.Sprintf("LinearLeastSquares on monomials: %s; the term, written as \"for i := range termOut { termOut[i] = phi(xs[i]) }\", panicked: %v (%s)", t.lenMsg, e, c15Brief(c)), c)
 		} else {
 			c15V(w, "panic", fmt.Sprintf("LinearLeastSquares on monomials panicked: %v (%s)", e, c15Brief(c)), c)
 		}
 		return
 	}
+	if t.lenBad {
+		c15V(w, "term-length", fmt.Sprintf("LinearLeastSquares on monomials: %s: a term must be handed one cell of termOut for each value in xs (%s)", t.lenMsg, c15Brief(c)), c)
+		return
+	}
 	c15CheckGuards(w, c, "LinearLeastSquares", gx, gy, gw)
+	if msg := t.probe(xs); msg != "" {
+		c15V(w, "terms-modified", fmt.Sprintf("LinearLeastSquares on monomials modified the caller's slice of basis functions: %s (%s)", msg, c15Brief(c)), c)
+		return
+	}
+	params, fresh := mem.take(w, c, "LinearLeastSquares on monomials", ret, zero)
+	mem.scribble()
+	if !fresh {
+		return
+	}
 	if len(params) != d+1 || !c15Finite(params) {
 		c15V(w, "poly-vs-lls", fmt.Sprintf("LinearLeastSquares on {1,x,..,x^%d} returned %v (%s)", d, params, c15Brief(c)), c)
 		return
@@ -855,7 +1107,9 @@ func c15JudgePoly(w *mon.W, c c15Case) {
 			c15V(w, "panic", fmt.Sprintf("PolynomialRegression (weights rescaled) panicked: %v (%s)", e, c15Brief(c)), c)
 			return nil, false
 		}
-		return append([]float64(nil), r2.Coefficients...), true
+		out, fresh := mem.take(w, c, "PolynomialRegression (Coefficients, weights rescaled)", r2.Coefficients, zero)
+		mem.scribble()
+		return out, fresh
 	})
 	c15CheckGuards(w, c, "PolynomialRegression", gx, gy)
 	if w.WantSample() {
@@ -1057,6 +1311,17 @@ func c15JudgeLOESS(w *mon.W, c c15Case) {
 			w.Hit("window-tie")
 			w.Ambiguous()
 		}
+		// every admissible window consists of near-coincident abscissae:
+		// its width is tiny compared with |x| (and not zero: distinct x)
+		near := x != 0
+		for _, cd := range cands {
+			for _, i := range cd.idx {
+				near = near && math.Abs(xs[i]-x) <= math.Abs(x)/(1<<19)
+			}
+		}
+		w.HitIf(near, "loess-window-of-near-coincident-x")
+		w.HitIf(near && !tie, "loess-window-of-near-coincident-x-no-tie")
+		w.HitIf(near && math.Abs(xs[cands[0].idx[len(cands[0].idx)-1]]-x) <= math.Abs(x)*1e-10, "loess-window-width<1e-10|x|")
 		judge := func(got float64, how string) (bool, c15Cand) {
 			best, bc := math.Inf(1), cands[0]
 			for _, cd := range cands {
@@ -1152,8 +1417,11 @@ func c15JudgeLOESS(w *mon.W, c c15Case) {
 // judged against the reference for the numbers that are in the arrays at the
 // time of the call, exactly as if the arrays were fresh; the only difference
 // is that the library has seen the same arrays (same addresses, same
-// lengths) with other contents before. Nothing returned by an earlier step
-// (Coefficients, F, a LOESS function) is used after the refill.
+// lengths) with other contents before. No F or LOESS function returned by an
+// earlier step is used after the refill; the parameter slices returned by
+// earlier calls stay with the caller, who overwrites them (c15Mem), and a
+// LinearLeastSquares step whose basis an earlier call used hands the library
+// the very same slice of basis functions again.
 func c15JudgeHistory(w *mon.W, c c15Case) {
 	if len(c.Steps) < 2 || len(c.Steps) > 8 {
 		return
@@ -1697,6 +1965,87 @@ func c15LoessFill(rng *mon.Rand, c *c15Case, n int) {
 	c15Rescale(c, kx, c15KY(rng))
 }
 
+// c15GenLoessNear builds a LOESS case whose abscissae come in groups of 1..4
+// distinct points at relative gaps 2^-k, k = 20..45 (repeat measurements at
+// almost the same x), with ceil(span*n) mostly 2..4 so that whole windows lie
+// inside one group, and queries at, between and just beside the points of the
+// groups. The local design of degree 0 has condition number 1 whatever the
+// gaps are; for degree 1 and 2 the windows inside a group are far beyond the
+// conditioning limit and are skipped by the reference as everywhere else.
+func c15GenLoessNear(rng *mon.Rand, i int) c15Case {
+	c := c15Case{Op: "loess", Seed: rng.Uint64()}
+	deg := 0
+	if i%5 == 4 {
+		deg = 1 + (i/5)%2
+	}
+	c.Degree = deg
+	G := rng.Range(3, 9)
+	var xs, qs []float64
+	for g := 0; g < G && len(xs) < 37; g++ {
+		ctr := -1.9 + 3.8*(float64(g)+rng.Uniform(0.2, 0.8))/float64(G)
+		m := rng.Range(1, 4)
+		if math.Abs(ctr) < 1e-2 {
+			m = 1
+		}
+		gap := math.Abs(ctr) * math.Ldexp(1, -rng.Range(20, 45))
+		first := len(xs)
+		x := ctr
+		for k := 0; k < m; k++ {
+			xs = append(xs, x)
+			x += gap * rng.Uniform(1, 2)
+		}
+		if m >= 2 {
+			grp := xs[first:]
+			for k, v := range grp {
+				qs = append(qs, v)
+				if k > 0 {
+					qs = append(qs, grp[k-1]+(v-grp[k-1])*rng.Uniform(0.1, 0.9))
+				}
+			}
+			qs = append(qs, grp[0]-gap*rng.LogUniform(1e-3, 10), grp[m-1]+gap*rng.LogUniform(1e-3, 10))
+		}
+	}
+	for len(xs) < deg+3 {
+		xs = append(xs, 1.95+0.01*float64(len(xs)))
+	}
+	sort.Float64s(xs)
+	n := len(xs)
+	for k := 1; k < n; k++ {
+		if !(xs[k] > xs[k-1]) { // cannot happen: the groups are 0.15 apart or more
+			xs[k] = math.Nextafter(xs[k-1], 3)
+		}
+	}
+	q := rng.Range(deg+2, imin(n, deg+4))
+	if rng.Intn(6) == 0 {
+		q = rng.Range(deg+2, n)
+	}
+	span := (float64(q) - rng.Uniform(0.05, 0.95)) / float64(n)
+	if rng.Intn(5) == 0 {
+		span = float64(q) / float64(n)
+	}
+	if span > 1 {
+		span = 1
+	}
+	c.Span = mon.F(span)
+	var ys []float64
+	switch rng.Intn(4) {
+	case 0:
+		coef, y, exact := c15PolyData(rng, xs, rng.Range(0, deg), rng.Bool())
+		ys, c.Coef, c.Exact = y, mon.Fs(coef), exact
+	case 1:
+		ys = c15Smooth(rng, xs, "")
+	default: // unrelated values, as repeat measurements with noise give
+		ys = make([]float64, n)
+		for k := range ys {
+			ys[k] = rng.Norm() * 10
+		}
+	}
+	qs = append(qs, xs[0], xs[n-1], rng.Uniform(-2, 2), xs[0]-rng.Uniform(0, 1), xs[n-1]+rng.Uniform(0, 1))
+	c.Xs, c.Ys, c.Qs, c.Perm = mon.Fs(xs), mon.Fs(ys), mon.Fs(qs), rng.Perm(n)
+	c15Rescale(&c, c15KX(rng, deg), c15KY(rng))
+	return c
+}
+
 // c15GenHistory builds a history of two independent data sets of the same
 // size for one operation (h selects the flavour).
 func c15GenHistory(rng *mon.Rand, op string, h int) c15Case {
@@ -1826,7 +2175,7 @@ func c15SelfTest() error {
 }
 
 func c15Run(r *mon.Run) {
-	r.Rule("designs: 3..40 distinct x in [-2,2] (uniform, equispaced, dyadic grid, two clusters), for degree<=2 also mapped to [10,12] and [0,1e3]; weights nil / log-uniform 1e-2..1e2 / constant / small integers; LinearLeastSquares on monomials 0..6, {1,sin,cos}, {1,x,exp}, a 5-function mixed basis and the constant-free bases {x}, {x,x^2}, {sin,cos}, in a third of the cases with the terms reversed (constant last) or shuffled; in a third of the weighted cases the weight vector is multiplied by 10^U(-30,30), in a quarter of all cases ys by 2^k (|k|<=330) and, for polynomial designs on [-2,2], xs by 2^k (|k|<=16/degree; any for degree 0); every LinearLeastSquares / PolynomialRegression fit is repeated with all weights multiplied by a random 10^U(-30,30) (no weights: the constant weight) and must not move; PolynomialRegression degree 0..6 on exact, rounded and noisy polynomial data and smooth data; LOESS degree 0..2, ceil(span*n) from degree+2 (the farthest point has weight 0: interpolation of the degree+1 others) to n, sorted and shuffled input, queries inside, at data, at and beyond both ends and around window switches. LinearLeastSquares also with 8..12 functions of the Fourier basis {1, sin(k pi x/2), cos(k pi x/2)} and of the Chebyshev basis {T_k(x/2)} on n >= p+2 points; every 53rd (LOESS: 29th) random case has ys identically zero (exact minimiser 0) and every 29th LOESS case a stretch of >= ceil(span*n) zero ys with queries whose whole window lies on it; histories (single goroutine): two independent data sets of the same size written alternately (A,B,A,B) in place into the same xs/ys/weights arrays, each call judged against the reference of the numbers then in the arrays. Designs with cond(X^T W X) > 1e10 are skipped. Non-trivial = hits a class; distinct by hash of (op, basis, degree, xs, ys, weights, span, order).")
+	r.Rule("designs: 3..40 distinct x in [-2,2] (uniform, equispaced, dyadic grid, two clusters), for degree<=2 also mapped to [10,12] and [0,1e3]; weights nil / log-uniform 1e-2..1e2 / constant / small integers; LinearLeastSquares on monomials 0..6, {1,sin,cos}, {1,x,exp}, a 5-function mixed basis and the constant-free bases {x}, {x,x^2}, {sin,cos}, in a third of the cases with the terms reversed (constant last) or shuffled; in a third of the weighted cases the weight vector is multiplied by 10^U(-30,30), in a quarter of all cases ys by 2^k (|k|<=330) and, for polynomial designs on [-2,2], xs by 2^k (|k|<=16/degree; any for degree 0); every LinearLeastSquares / PolynomialRegression fit is repeated with all weights multiplied by a random 10^U(-30,30) (no weights: the constant weight) and must not move; PolynomialRegression degree 0..6 on exact, rounded and noisy polynomial data and smooth data; LOESS degree 0..2, ceil(span*n) from degree+2 (the farthest point has weight 0: interpolation of the degree+1 others) to n, sorted and shuffled input, queries inside, at data, at and beyond both ends and around window switches. LinearLeastSquares also with 8..12 functions of the Fourier basis {1, sin(k pi x/2), cos(k pi x/2)} and of the Chebyshev basis {T_k(x/2)} on n >= p+2 points; every 53rd (LOESS: 29th) random case has ys identically zero (exact minimiser 0) and every 29th LOESS case a stretch of >= ceil(span*n) zero ys with queries whose whole window lies on it; histories (single goroutine): two independent data sets of the same size written alternately (A,B,A,B) in place into the same xs/ys/weights arrays, each call judged against the reference of the numbers then in the arrays. Every LinearLeastSquares case hands the same slice of basis functions (half of them written as for i := range termOut, half ranging over xs) to both of its calls, a history to all calls with that basis, and evaluates its elements afterwards: they must still be the caller's functions, and must have been called with len(termOut) == len(xs). Every returned parameter slice is checked for memory shared with the earlier results the caller holds and overwritten (with its spare capacity) before the next call. LOESS also on abscissae in groups of 1..4 points at relative gaps 2^-20..2^-45 with windows inside one group (degree 0 mostly; cond 1). Designs with cond(X^T W X) > 1e10 are skipped. Non-trivial = hits a class; distinct by hash of (op, basis, degree, xs, ys, weights, span, order).")
 	r.Assume("reference: exact minimiser by 384-bit Gaussian elimination of the normal equations formed from the float64 inputs, cross-checked at start-up against gonum Householder QR and the published NIST LOWESS example; condition numbers from gonum/mat SVD of X^T W X",
 		"the basis functions handed to LinearLeastSquares are pure; their float64 values define the problem",
 		"tolerances: backward-stable normal-equations bound with C=16 (see the head of props/c15.go)")
@@ -1838,7 +2187,11 @@ func c15Run(r *mon.Run) {
 		"loess-q==degree+2(interpolation)", "loess-q==2-degree-0(nearest-point)",
 		"lls-ys-all-zero", "poly-ys-all-zero", "loess-ys-all-zero", "loess-window-all-zero-ys",
 		"p>=8", "lls-basis-fourier", "lls-basis-cheb",
-		"history-lls", "history-poly", "history-loess")
+		"history-lls", "history-poly", "history-loess",
+		"lls-term-ranges-over-termOut", "lls-term-ranges-over-termOut(n%4!=0)", "lls-terms-slice-reused", "lls-terms-slice-probed-after-call",
+		"history-terms-slice-reused", "history-terms-slice-reused-weighted",
+		"loess-window-of-near-coincident-x", "loess-window-of-near-coincident-x-no-tie", "loess-window-width<1e-10|x|",
+		"result-checked-for-memory-shared-with-earlier-result", "fit-after-earlier-result-overwritten", "zero-ys-fit-after-earlier-result-overwritten")
 	if err := c15SelfTest(); err != nil {
 		r.Inconclusive("reference self-test failed: " + err.Error())
 		return
@@ -1880,6 +2233,12 @@ func c15Run(r *mon.Run) {
 		case 14:
 			c15ZeroPlateau(w.Rng, &c)
 		}
+		c15Judge(w, c)
+		w.Distinct(c15Hash(c))
+	})
+	// abscissae in groups of near-coincident points
+	r.Parallel("loess-near-coincident", r.Pick(400, 4000), func(w *mon.W, i int) {
+		c := c15GenLoessNear(w.Rng, i)
 		c15Judge(w, c)
 		w.Distinct(c15Hash(c))
 	})
